@@ -103,6 +103,24 @@ def eval_engine(expr):
     except Exception as e:
         got = ("raise", type(e).__name__)
     mutated = inp != INPUT or ctx != CTX or tmpl != {"v.$": expr}
+    # evaluating the same expression again - after the caller has scribbled on the first result - gives the same answer, built afresh
+    # (a result handed out twice, or remembered between evaluations, would carry the scribble; random functions must not repeat)
+    if got[0] == "value" and not mutated:
+        first = copy.deepcopy(got[1])
+        got = ("value", first)
+        if isinstance(r["v"], list):
+            r["v"].append("scribble")
+        elif isinstance(r["v"], dict):
+            r["v"]["scribble"] = True
+        try:
+            r2 = sp.evaluate_payload_template(copy.deepcopy(INPUT), copy.deepcopy(CTX), {"v.$": expr})["v"]
+            if "UUID" in expr or "MathRandom" in expr:
+                if "UUID" in expr and json.dumps(r2, sort_keys=True, default=repr) == json.dumps(first, sort_keys=True, default=repr) and "States.UUID" in json.dumps(expr):
+                    mutated = "repeats"
+            elif json.dumps(r2, sort_keys=True, default=repr) != json.dumps(first, sort_keys=True, default=repr):
+                mutated = "second-evaluation-differs"
+        except Exception:
+            mutated = "second-evaluation-differs"
     return got, mutated
 
 def eval_ref(expr):
@@ -232,9 +250,12 @@ def run(tier, seed):
     res = [r for o in outs for r in o]
     judged = 0
     for e, (got, mut, want) in zip(exs, res):
-        if mut:
+        if mut is True:
             sig = "intrinsic|mutates-arguments"
             cr.add(sig, "%s modified its template / input / context" % e, {"kind": "expr", "property": PROP, "signature": sig, "expr": e}, size=len(e))
+        elif mut:
+            sig = "intrinsic|" + str(mut)
+            cr.add(sig, "%s evaluated a second time (after the first result was modified by its receiver): %s" % (e, mut), {"kind": "expr", "property": PROP, "signature": sig, "expr": e}, size=len(e))
         if got[0] in ("raise", "value-not-json"):
             judged += 1
             sig = "intrinsic|" + classify(e, got, want or ("intrinsic",))
